@@ -257,6 +257,13 @@ def b_float(eng, st, node, a, kw, k, ctx):
         eng.throw(s2, "TypeError", node, ctx)
         st.assume(z3.Not(v.t[0]))
         return b_float(eng, st, node, [V(v.s[1], v.t[1])], kw, k, ctx)
+    if v.s == ("lit",):
+        from .externals import lit_arity, lit_num
+        s2 = st.fork()
+        s2.assume(lit_arity(v.t) != 0)
+        eng.throw(s2, "TypeError", node, ctx)       # float(tuple)
+        st.assume(lit_arity(v.t) == 0)
+        return k(st, V(REAL, lit_num(v.t, z3.IntVal(0))))
     raise Unsupported(f"float({v})")
 
 
